@@ -288,18 +288,20 @@ def _bypass(ctx, nz, server):
             site = [n for n, c in K.nodes_calling(graph,
                                                   lambda c: c is sub)][0]
             facts = N.must_facts(graph, nz)
+            from . import master_model as M
+            pname, tname = M.stamp_names(func, facts[site])
             have_le = any(f.key[0] == 'cmp' and f.key[1] in ('<=', '<') and
                           sorted(t for t, _c in f.key[2]) == sorted(
-                              ['presence_time', 'placement_time']) and
-                          dict(f.key[2])['presence_time'] > 0
+                              [pname, tname]) and
+                          dict(f.key[2])[pname] > 0
                           for f in facts[site])
             have_tr = any(f.key[0] == 'truth' and f.key[2] and
-                          f.key[1] == 'presence_time' or
+                          f.key[1] == pname or
                           f.key[0] == 'is' and not f.key[3] and
-                          f.key[1] == 'presence_time'
+                          f.key[1] == pname
                           for f in facts[site])
             extra = [N.show(f) for f in N.raw_only(facts[site])
-                     if 'presence_time' not in f.mentions and
+                     if pname not in f.mentions and
                      any(m.startswith('server') for m in f.mentions)]
             ok = have_le and have_tr
             detail = 'verbatim restore only under presence exists and ' \
